@@ -36,8 +36,8 @@ theorem eqList_trans_tuple (num : Bool) (xs : List Val) : ∀ ys zs : List Val,
           | _ => simp [tupleElemOk] at hy
         | _ => simp [tupleElemOk] at hx
 
-theorem eqD_cons_inv (ok : EnvOk env) {k k' : Atom} {v w : Val} {xs ys : List (Atom × Val)}
-    (hx : ascKeys env ((k, v) :: xs) = true) (hy : ascKeys env ((k', w) :: ys) = true)
+theorem eqD_cons_inv (ok : EnvOk env) {sh : Option (List Atom)} {k k' : Atom} {v w : Val} {xs ys : List (Atom × Val)}
+    (hx : keysOk env sh ((k, v) :: xs) = true) (hy : keysOk env sh ((k', w) :: ys) = true)
     (h : eqD ((k, v) :: xs) ((k', w) :: ys) = true) :
     atomEq k k' = true ∧ eq v w = true ∧ eqD xs ys = true := by
   cases hk : atomEq k k'
@@ -82,7 +82,7 @@ mutual
         | dict u zs =>
           rw [eq_dict] at h1 h2 ⊢
           simp only [comparable, Bool.and_eq_true] at hx hy hz
-          exact eqD_trans ok num xs ys zs hx.1 hx.2 hy.1 hy.2 hz.1 hz.2 h1 h2
+          exact eqD_trans ok num none xs ys zs hx.1 hx.2 hy.1 hy.2 hz.1 hz.2 h1 h2
         | _ => simp [eq] at h2
       | _ => simp [eq] at h1
     | obj c xs =>
@@ -92,7 +92,10 @@ mutual
           rw [eq_obj] at h1 h2 ⊢
           simp only [Bool.and_eq_true, beq_iff_eq] at h1 h2 ⊢
           simp only [comparable, Bool.and_eq_true] at hx hy hz
-          exact ⟨h1.1.trans h2.1, eqD_trans ok num xs ys zs hx.1 hx.2 hy.1 hy.2 hz.1 hz.2 h1.2 h2.2⟩
+          obtain ⟨hcd, g1⟩ := h1
+          obtain ⟨hde, g2⟩ := h2
+          subst hcd; subst hde
+          exact ⟨rfl, eqD_trans ok num (some (env.fields c)) xs ys zs hx.1 hx.2 hy.1 hy.2 hz.1 hz.2 g1 g2⟩
         | _ => simp [eq] at h2
       | _ => simp [eq] at h1
   termination_by structural x
@@ -118,10 +121,10 @@ mutual
           exact ⟨eq_trans ok num x y z hx.1 hy.1 hz.1 h1.1 h2.1,
                  eqList_trans ok num xs ys zs hx.2 hy.2 hz.2 h1.2 h2.2⟩
   termination_by structural xs
-  theorem eqD_trans (ok : EnvOk env) (num : Bool) (xs : List (Atom × Val)) : ∀ ys zs : List (Atom × Val),
-      ascKeys env xs = true → comparableItems env num xs = true →
-      ascKeys env ys = true → comparableItems env num ys = true →
-      ascKeys env zs = true → comparableItems env num zs = true →
+  theorem eqD_trans (ok : EnvOk env) (num : Bool) (sh : Option (List Atom)) (xs : List (Atom × Val)) : ∀ ys zs : List (Atom × Val),
+      keysOk env sh xs = true → comparableItems env num xs = true →
+      keysOk env sh ys = true → comparableItems env num ys = true →
+      keysOk env sh zs = true → comparableItems env num zs = true →
       eqD xs ys = true → eqD ys zs = true → eqD xs zs = true := by
     intro ys zs ax hx ay hy az hz h1 h2
     cases xs with
@@ -144,8 +147,8 @@ mutual
           obtain ⟨f1, f2, f3⟩ := eqD_cons_inv ok ay az h2
           rw [eqD_cons_eq ok ax az (atomEq_trans e1 f1),
             eq_trans ok num v w u hx.1 hy.1 hz.1 e2 f2,
-            eqD_trans ok num xs ys zs (ascKeys_cons ax).2 hx.2 (ascKeys_cons ay).2 hy.2
-              (ascKeys_cons az).2 hz.2 e3 f3]
+            eqD_trans ok num (shTail sh) xs ys zs (keysOk_tail ax) hx.2 (keysOk_tail ay) hy.2
+              (keysOk_tail az) hz.2 e3 f3]
           rfl
   termination_by structural xs
 end
@@ -274,7 +277,7 @@ mutual
             simp only [lt, rankCmp_same hkz, rankCmp_same hkz']
             simp only [comparable, Bool.and_eq_true] at hx hy hz
             rw [eq_dict] at h
-            exact ltItems_congr_left ok num xs ys zs hx.1 hx.2 hy.1 hy.2 hz.2 h
+            exact ltItems_congr_left ok num none xs ys zs hx.1 hx.2 hy.1 hy.2 hz.2 h
           | atom c => cases c <;> simp [kindOf, atomKind] at hkz
           | _ => simp [kindOf] at hkz
         | _ => simp [eq] at h
@@ -289,7 +292,7 @@ mutual
             subst hcd; subst hce
             simp only [lt, rankCmp_same hkz, rankCmp_same hkz', if_true]
             simp only [comparable, Bool.and_eq_true] at hx hy hz
-            exact ltItems_congr_left ok num xs ys zs hx.1 hx.2 hy.1 hy.2 hz.2 h.2
+            exact ltItems_congr_left ok num (some (env.fields c)) xs ys zs hx.1 hx.2 hy.1 hy.2 hz.2 h.2
           | _ => simp [kindOf] at hkz
         | _ => simp [eq] at h
     · have hkz' : kindOf y ≠ kindOf z := hk ▸ hkz
@@ -320,10 +323,10 @@ mutual
             lt_congr_left ok num x y z hx.1 hy.1 hz.1 h.1,
             ltList_congr_left ok num xs ys zs hx.2 hy.2 hz.2 h.2]
   termination_by structural xs
-  theorem ltItems_congr_left (ok : EnvOk env) (num : Bool) (xs : List (Atom × Val)) :
+  theorem ltItems_congr_left (ok : EnvOk env) (num : Bool) (sh : Option (List Atom)) (xs : List (Atom × Val)) :
       ∀ ys zs : List (Atom × Val),
-      ascKeys env xs = true → comparableItems env num xs = true →
-      ascKeys env ys = true → comparableItems env num ys = true →
+      keysOk env sh xs = true → comparableItems env num xs = true →
+      keysOk env sh ys = true → comparableItems env num ys = true →
       comparableItems env num zs = true → eqD xs ys = true →
       ltItems env xs zs = ltItems env ys zs := by
     intro ys zs ax hx ay hy hz h
@@ -347,7 +350,7 @@ mutual
           simp only [ltItems, atomEq_congr_left k'' e1, atomLt_congr_left k'' e1,
             eq_congr_left ok num u hx.1 hy.1 hz.1 e2,
             lt_congr_left ok num v w u hx.1 hy.1 hz.1 e2,
-            ltItems_congr_left ok num xs ys zs (ascKeys_cons ax).2 hx.2 (ascKeys_cons ay).2 hy.2 hz.2 e3]
+            ltItems_congr_left ok num (shTail sh) xs ys zs (keysOk_tail ax) hx.2 (keysOk_tail ay) hy.2 hz.2 e3]
   termination_by structural xs
 end
 
